@@ -154,6 +154,61 @@ pub fn real(e: &Ex, leaves: &[LeafDef]) -> BoxAut {
     }
 }
 
+/// The same expression with every operand passed BY REFERENCE (through the
+/// `impl Automaton for &T` forwarding impl). Operands live in boxes owned by
+/// the returned value and are freed, parents first, when it is dropped.
+pub struct RefAut {
+    aut: Option<BoxAut>,
+    owned: Vec<*mut BoxAut>,
+}
+
+impl RefAut {
+    pub fn aut(&self) -> &BoxAut {
+        self.aut.as_ref().unwrap()
+    }
+}
+
+impl Drop for RefAut {
+    fn drop(&mut self) {
+        self.aut.take();
+        for p in self.owned.drain(..).rev() {
+            unsafe { drop(Box::from_raw(p)) }
+        }
+    }
+}
+
+pub fn real_ref(e: &Ex, leaves: &[LeafDef]) -> RefAut {
+    fn go(e: &Ex, leaves: &[LeafDef], owned: &mut Vec<*mut BoxAut>) -> BoxAut {
+        let keep = |a: BoxAut, owned: &mut Vec<*mut BoxAut>| -> &'static BoxAut {
+            let p = Box::into_raw(Box::new(a));
+            owned.push(p);
+            unsafe { &*p }
+        };
+        match e {
+            Ex::Leaf(_) => real(e, leaves),
+            Ex::Sw(e) => {
+                let a = go(e, leaves, owned);
+                BoxAut::new(Automaton::starts_with(keep(a, owned)))
+            }
+            Ex::Co(e) => {
+                let a = go(e, leaves, owned);
+                BoxAut::new(Automaton::complement(keep(a, owned)))
+            }
+            Ex::Un(a, b) => {
+                let (a, b) = (go(a, leaves, owned), go(b, leaves, owned));
+                BoxAut::new(Automaton::union(keep(a, owned), keep(b, owned)))
+            }
+            Ex::In(a, b) => {
+                let (a, b) = (go(a, leaves, owned), go(b, leaves, owned));
+                BoxAut::new(Automaton::intersection(keep(a, owned), keep(b, owned)))
+            }
+        }
+    }
+    let mut owned = vec![];
+    let aut = go(e, leaves, &mut owned);
+    RefAut { aut: Some(aut), owned }
+}
+
 // ---- specification: explicit DFA over the symbol classes {a, b, other}
 
 #[derive(Clone, Debug)]
@@ -397,6 +452,12 @@ pub fn run_expr(e: &Ex, leaves: &[LeafDef], cap: usize, extra_bytes: bool) -> Re
         }
         let st = aut.start();
         walk(&aut, &st, 0, 0, bound, &sp, &reach, &all, extra_bytes, &mut vec![], &mut count)?;
+        if !matches!(e, Ex::Leaf(_)) {
+            // the same expression with every operand borrowed (impl Automaton for &T)
+            let r = real_ref(e, leaves);
+            let st = r.aut().start();
+            walk(r.aut(), &st, 0, 0, bound, &sp, &reach, &all, extra_bytes, &mut vec![], &mut count).map_err(|m| format!("[operands by reference] {}", m))?;
+        }
         Ok(Outcome { strings: count, spec_states: n, complete: n + 1 <= cap })
     })
     .and_then(|x| x)
